@@ -308,6 +308,8 @@ def make_exc(it, exc):
         cls = BEXC[cls] if cls in BEXC else it.prog.func(cls)
     o = Obj(cls, dict(fields))
     o.f.setdefault('args', ())
+    if isinstance(cls, BCls) and cls.name == 'OpaqueException':
+        o.f['_not_source_defined'] = True
     return o
 
 
